@@ -22,13 +22,14 @@
                     GCas   CAS callbackInProcess 0->1; won -> GMove; lost -> GWgDone (wg.Done) -> GExit
      Close()/close()  (stream.go 275-327, run by closer threads, by OnData, and by the goroutine's exit path)
                     KStart callbacks installed: store callbackCloseState waitExit
-                    KLdIn  load callbackInProcess; 1 -> KHalf: CAS state opened->halfClosed; return
-                    CLd    load state (closed: return);  CCas old: CAS state old->closed (lost: return nil!)
+                    KLdIn  load callbackInProcess; 1 -> KHalf: CAS state opened->localHalfClosed; return
+                    CLd    load state (closed: return);  CCas old: CAS state old->closed (lost: back to CLd)
                     CWait  asyncGoroutineWg.Wait() (callbacks installed)
                     CTbl   clean(): load state, session.onStreamClose (table delete); CPend pendingData.clear;
-                    CRecv  recvBuf/sendBuf.recycle; old = opened: CNotify safeCloseNotify + OnLocalClose,
+                    CRecv  recvBuf/sendBuf.recycle; old = opened or localHalfClosed: CNotify safeCloseNotify + OnLocalClose,
                     CSend  close element to the peer
-     SetCallbacks SIdle set the callbacks (error if present) ; SStore store callbackInProcess 0
+     SetCallbacks SIdle set the callbacks (error if present) ; then startCallbackGoroutine, as the event loop:
+                    SCas CAS callbackInProcess 0->1; won: SWgAdd wg.Add(1), SSpawn gopool.Go
      user Flush   UIdle load state (not opened: ErrStreamClosed) ; UPut queue element to the peer
 
    The session itself stays open (Session.Close is C14's subject); the transport to the peer is one FIFO
@@ -39,9 +40,11 @@ From Shm Require Import Gen.Consts.
 Import ListNotations.
 Open Scope Z_scope.
 
-(* callbackDefault = 0, callbackWaitExit = 1 (stream.go 44-47; not among the generated constants — the
-   value is pinned by the access-trace correspondence: the store in Close() logs it) *)
-Definition v_callbackWaitExit : Z := 1.
+Definition v_callbackWaitExit : Z := c_callbackWaitExit.
+(* streamLocalHalfClosed (stream.go const block, after streamHalfClosed): the state Close() moves an open
+   stream to when a callback goroutine is running.  Not yet among the generated constants — the value is
+   pinned by the access-trace correspondence: the CAS in Close() logs it. *)
+Definition v_streamLocalHalfClosed : Z := 3.
 
 Inductive ev := EData (m : list Z) | EClose.
 
@@ -54,7 +57,7 @@ Inductive gpc :=
 | GCas | GWgDone | GWgDoneClose | GClose (c : cpc) | GExit.
 
 Inductive epcT := EIdle | EHalf | EHalfN | EChk | EClrP | EClrR | EGetCb | ECas | EWgAdd | ESpawn.
-Inductive spcT := SIdle | SStore | SDone.
+Inductive spcT := SIdle | SCas | SWgAdd | SSpawn | SDone.
 Inductive upcT := UIdle | UPut (m : list Z).
 Record ulocal := { upc : upcT; utodo : list (list Z); ures : list bool }.
 
@@ -163,15 +166,15 @@ Definition cstep (s : est) (c : cpc) : est * cpc :=
   match c with
   | KStart => (if cbset s then set_cstate v_callbackWaitExit s else s, KLdIn)
   | KLdIn => if inproc s =? 1 then (set_khalf true s, KHalf) else (s, CLd)
-  | KHalf => if st s =? c_streamOpened then (set_lhalf true (set_st c_streamHalfClosed s), KRet) else (s, KRet)
+  | KHalf => if st s =? c_streamOpened then (set_lhalf true (set_st v_streamLocalHalfClosed s), KRet) else (s, KRet)
   | CLd => if st s =? c_streamClosed then (s, KRet) else (s, CCas (st s))
   | CCas old => if st s =? old
                 then (set_st c_streamClosed s, if cbset s then CWait old else CTbl old)
-                else (set_casfail true s, KRet)
+                else (set_casfail true s, CLd)      (* casToClosed: a lost CAS looks again *)
   | CWait old => if wg s <=? 0 then (s, CTbl old) else (s, CWait old)
   | CTbl old => (set_intable false s, CPend old)
   | CPend old => (clear_pending s, CRecv old)
-  | CRecv old => (set_recv [] s, if old =? c_streamOpened then CNotify else KRet)
+  | CRecv old => (set_recv [] s, if (old =? c_streamOpened) || (old =? v_streamLocalHalfClosed) then CNotify else KRet)
   | CNotify => (set_nlocal (nlocal s + 1) (set_cnotify true s), CSend)
   | CSend => (set_out (out s ++ [EClose]) s, KRet)
   | KRet => (s, KRet)
@@ -244,8 +247,10 @@ Definition clstep (i : nat) (s : est) : est :=
 (* ---------- SetCallbacks ---------- *)
 Definition sstep (s : est) : est :=
   match spc s with
-  | SIdle => if cbset s then set_spc SDone s else set_spc SStore (set_cbset true s)
-  | SStore => set_spc SDone (set_inproc 0 s)
+  | SIdle => if cbset s then set_spc SDone s else set_spc SCas (set_cbset true s)
+  | SCas => if inproc s =? 0 then set_spc SWgAdd (set_inproc 1 s) else set_spc SDone s
+  | SWgAdd => set_spc SSpawn (set_wg (wg s + 1) s)
+  | SSpawn => set_spc SDone (set_gors (gors s ++ [GMove]) s)
   | SDone => s
   end.
 
